@@ -45,14 +45,14 @@ class Universe:
         self.ext_names = []
         self._fresh = 0
         # str.join over a sequence of PV strings (exact recursive definition)
-        self.str_join = z3.RecFunction("str_join", self.Str, self.Seq, self.Str)
-        sep = z3.Const("sep!j", self.Str)
-        sq = z3.Const("sq!j", self.Seq)
-        n = z3.Length(sq)
-        z3.RecAddDefinition(self.str_join, [sep, sq], z3.If(
-            n == 0, z3.StringVal(""),
-            z3.If(n == 1, PV.s(sq[0]),
-                  z3.Concat(PV.s(sq[0]), sep, self.str_join(sep, z3.SubSeq(sq, 1, n - 1))))))
+        from .deffun import DefFun
+
+        def _join_body(sep, sq):
+            n = z3.Length(sq)
+            return z3.If(n == 0, z3.StringVal(""),
+                         z3.If(n == 1, PV.s(sq[0]),
+                               z3.Concat(PV.s(sq[0]), sep, self.str_join(sep, z3.SubSeq(sq, 1, n - 1)))))
+        self.str_join = DefFun("str_join", [self.Str, self.Seq], self.Str, _join_body, cheap=True)
 
     # ---- constructors -------------------------------------------------------------------
     def none(self):
